@@ -45,6 +45,7 @@ type c06Case struct {
 	PriorRestartAgo           time.Duration // now - lastUpdate
 	AnnPaused, AnnUnpaused    string        // "", "true", "false"
 	Steps                     []c06Step
+	UserFailAt                int // 0: never; i: `kubectl-eds canary fail` lands between the read and the status write of the i-th sync
 }
 
 // c06Step mutates one pod between two syncs.
@@ -56,7 +57,7 @@ type c06Step struct {
 
 func (k c06Case) String() string {
 	var b strings.Builder
-	fmt.Fprintf(&b, "autoPause=%v/%d autoFail=%v/%d maxSlowStart=%s maxRestartsDuration=%s canaryTimeout=%s canaryAge=%s(off=%v) priorPaused=%v priorFailed=%v priorRestartSpan=%s(ago %s) ann[paused=%q unpaused=%q]", k.PauseEnabled, k.P, k.FailEnabled, k.F, k.MaxSlowStart, k.MaxRestartsDuration, k.CanaryTimeout, k.CanaryAge, k.CanaryWasOff, k.PriorPaused, k.PriorFailed, k.PriorRestartSpan, k.PriorRestartAgo, k.AnnPaused, k.AnnUnpaused)
+	fmt.Fprintf(&b, "autoPause=%v/%d autoFail=%v/%d maxSlowStart=%s maxRestartsDuration=%s canaryTimeout=%s canaryAge=%s(off=%v) userFailAt=%d priorPaused=%v priorFailed=%v priorRestartSpan=%s(ago %s) ann[paused=%q unpaused=%q]", k.PauseEnabled, k.P, k.FailEnabled, k.F, k.MaxSlowStart, k.MaxRestartsDuration, k.CanaryTimeout, k.CanaryAge, k.CanaryWasOff, k.UserFailAt, k.PriorPaused, k.PriorFailed, k.PriorRestartSpan, k.PriorRestartAgo, k.AnnPaused, k.AnnUnpaused)
 	for i, p := range k.Pods {
 		if !p.Present {
 			continue
@@ -148,6 +149,9 @@ func c06Draw(rt *rapid.T) c06Case {
 		kind := rapid.SampledFrom([]string{"restart", "restart", "waiting:ErrImagePull", "waiting:ContainerCreating", "ready", "none"}).Draw(rt, fmt.Sprintf("step%d-kind", i))
 		k.Steps = append(k.Steps, c06Step{Pod: rapid.IntRange(0, 2).Draw(rt, fmt.Sprintf("step%d-pod", i)), Kind: kind,
 			Advance: rapid.SampledFrom([]time.Duration{11 * time.Second, 45 * time.Second, 3 * time.Minute}).Draw(rt, fmt.Sprintf("step%d-adv", i))})
+	}
+	if rapid.IntRange(0, 5).Draw(rt, "userFailMidSync") == 0 {
+		k.UserFailAt = rapid.IntRange(1, 1+len(k.Steps)).Draw(rt, "userFailAt")
 	}
 	return k
 }
@@ -295,10 +299,40 @@ func runC06Order(k c06Case, perm []int) (vs []mon.V, obs []c06Obs, err error) {
 		}
 	})
 	on := mon.Of("canary-verdict", "no-panic", "paused-frozen", "condition-clock")
+	userFailed := false
 	sync := func() {
-		r := c.Reconcile(sim.ActorERS, "ns1", crs)
 		evaluated++
-		vs = append(vs, mon.Check(r, on, nil)...)
+		hit := false
+		if k.UserFailAt == evaluated {
+			// the user's mark (what pkg/plugin/canary/fail.go writes) lands after the sync has read the replica set and
+			// right before it writes its status: whatever the sync does - conflict and retry, or a write that keeps the
+			// mark - Canary-Failed is true afterwards and stays true
+			c.Faults = func(call *sim.Call) sim.FaultKind {
+				if !hit && call.Actor == sim.ActorERS && (call.Verb == "status-update" || call.Verb == "status-patch") && call.Name == crs {
+					hit = true
+					c.Tracef("user fails canary %s (inside the sync)", crs)
+					c.MutateERS("ns1", crs, func(rs *edsv1.ExtendedDaemonSetReplicaSet) {
+						now := metav1.NewTime(c.Now())
+						if cd := oracle.RSCond(&rs.Status, edsv1.ConditionTypeCanaryFailed); cd != nil {
+							cd.Status, cd.LastTransitionTime, cd.LastUpdateTime, cd.Reason = corev1.ConditionTrue, now, now, "Manually failed"
+						} else {
+							rs.Status.Conditions = append(rs.Status.Conditions, edsv1.ExtendedDaemonSetReplicaSetCondition{Type: edsv1.ConditionTypeCanaryFailed, Status: corev1.ConditionTrue, LastTransitionTime: now, LastUpdateTime: now, Reason: "Manually failed"})
+						}
+					})
+				}
+				return sim.FaultNone
+			}
+		}
+		r := c.Reconcile(sim.ActorERS, "ns1", crs)
+		c.Faults = nil
+		if hit {
+			userFailed = true // this record's verdict is the user's, not the sync's: only stickiness is judged below
+		} else {
+			vs = append(vs, mon.Check(r, on, nil)...)
+		}
+		if rs := c.ERS("ns1", crs); userFailed && rs != nil && !oracle.RSCondTrue(&rs.Status, edsv1.ConditionTypeCanaryFailed) {
+			vs = append(vs, mon.V{Property: "C06", Monitor: "sticky", Sig: "C06/sticky/user-fail-lost", Detail: fmt.Sprintf("the user marked canary %s failed during sync %d; after sync %d Canary-Failed is not true any more", crs, k.UserFailAt, evaluated)})
+		}
 		o := c06Obs{}
 		if rs := c.ERS("ns1", crs); rs != nil {
 			o.Failed = oracle.RSCondTrue(&rs.Status, edsv1.ConditionTypeCanaryFailed)
@@ -408,7 +442,7 @@ func TestC06Order(t *testing.T) {
 }
 
 func TestC06Verdict(t *testing.T) {
-	rec := evid.New("TestC06Verdict", "C06", "canary of three nodes with 0-3 up-to-date canary pods (1-2 containers, sometimes an init container status; restart counts at, below and above both thresholds; last-termination times; waiting reasons inside/outside the cannot-start set and ContainerCreating; start time around maxSlowStartDuration) x autoPause/autoFail enabled x thresholds x maxSlowStartDuration/maxRestartsDuration/canaryTimeout set or unset x prior Canary (True, or False since then: a set that was a canary before and is one again)/Canary-Paused/Canary-Failed/PodRestarting conditions with ages around the limits x pause/unpause annotations, then 1-4 canary syncs through the real Reconcile with pod changes in between (stickiness, restart timeline); oracle = three-valued reference verdict; non-trivial = at least one pod and (a restart count within 1 of a threshold, a cannot-start/creating reason, or a prior condition); distinct by case rendering")
+	rec := evid.New("TestC06Verdict", "C06", "canary of three nodes with 0-3 up-to-date canary pods (1-2 containers, sometimes an init container status; restart counts at, below and above both thresholds; last-termination times; waiting reasons inside/outside the cannot-start set and ContainerCreating; start time around maxSlowStartDuration) x autoPause/autoFail enabled x thresholds x maxSlowStartDuration/maxRestartsDuration/canaryTimeout set or unset x prior Canary (True, or False since then: a set that was a canary before and is one again)/Canary-Paused/Canary-Failed/PodRestarting conditions with ages around the limits x pause/unpause annotations, then 1-4 canary syncs through the real Reconcile with pod changes in between (stickiness, restart timeline), in one case out of six with `kubectl-eds canary fail` landing between the read and the status write of one of these syncs (the mark must survive that sync and every later one); oracle = three-valued reference verdict; non-trivial = at least one pod and (a restart count within 1 of a threshold, a cannot-start/creating reason, or a prior condition); distinct by case rendering")
 	t.Cleanup(func() {
 		if !t.Failed() {
 			rec.Done()
